@@ -134,6 +134,7 @@ type FnGen struct {
 	dryHeader *ssa.BasicBlock
 	ranges    map[*ssa.Range]*rangeState
 	covers    []coverPoint
+	curBlock  *ssa.BasicBlock
 }
 
 var bigOne = big.NewInt(1)
@@ -708,13 +709,15 @@ func (g *FnGen) addrOf(p Val) *Addr {
 	}
 	el := pt.Elem()
 	if arr, ok := el.Underlying().(*types.Array); ok {
-		fam, _ := g.elemFam(arr.Elem())
+		fam, sort := g.elemFam(arr.Elem())
+		g.famInit(fam, sort)
 		return &Addr{Fam: fam, Ref: p.T, Idx: "", T: el}
 	}
 	if _, ok := el.Underlying().(*types.Struct); ok {
 		return &Addr{Fam: "$struct", Ref: p.T, T: el}
 	}
-	fam, _ := g.cellFam(el)
+	fam, sort := g.cellFam(el)
+	g.famInit(fam, sort)
 	return &Addr{Fam: fam, Ref: p.T, T: el}
 }
 
@@ -1051,6 +1054,65 @@ func (g *FnGen) prelude() string {
 }
 
 // Script for one obligation.
+// heavySymbols: assumptions mentioning one of these are dropped from the *sliced* script when the goal does
+// not mention it. Dropping assumptions can only make an obligation harder to prove, never unsound.
+var heavySymbols = []string{"memP_", "str-cat", "str-sub"}
+
+// slicedScript returns the script without assumptions about heavy symbols the goal does not use ("" if identical).
+func (g *FnGen) slicedScript(o *Oblig) string {
+	var drop []string
+	for _, h := range heavySymbols {
+		if !strings.Contains(o.Goal, h) {
+			drop = append(drop, h)
+		}
+	}
+	if len(drop) == 0 {
+		return ""
+	}
+	dropped := false
+	keep := func(a string) bool {
+		for _, h := range drop {
+			if strings.Contains(a, h) {
+				dropped = true
+				return false
+			}
+		}
+		return true
+	}
+	var b strings.Builder
+	b.WriteString(g.prelude())
+	for _, d := range g.preludeX {
+		b.WriteString(d)
+		b.WriteByte('\n')
+	}
+	for _, d := range g.decls {
+		b.WriteString(d)
+		b.WriteByte('\n')
+	}
+	for _, a := range g.assumes[:o.nAssume] {
+		if keep(a) {
+			b.WriteString("(assert ")
+			b.WriteString(a)
+			b.WriteString(")\n")
+		}
+	}
+	for _, x := range o.Extra {
+		b.WriteString("(assert ")
+		b.WriteString(x)
+		b.WriteString(")\n")
+	}
+	guard := o.Guard
+	if guard == "" {
+		guard = "true"
+	}
+	fmt.Fprintf(&b, "(assert (not (=> %s %s)))\n", guard, o.Goal)
+	b.WriteString("(check-sat)\n")
+	if !dropped {
+		return ""
+	}
+	return b.String()
+}
+
 func (g *FnGen) script(o *Oblig) string {
 	var b strings.Builder
 	b.WriteString(g.prelude())
